@@ -173,7 +173,9 @@ int main(int argc, char** argv) {
     T = W + N;
     fxInstantiate(&parent, NULL);
     mem = fx_mem(&parent);
-    for (t = 0; t < T + 1; t++) { child[t] = (fxInstance*)parent.common.newChild((wasmModuleInstance*)&parent); evs[t] = (Ev*)calloc(MAXEV, sizeof(Ev)); }
+    /* several generations: every third member is a child of the root, the others children of the previous member */
+    for (t = 0; t < T + 1; t++) { wasmModuleInstance* from = (t % 3 == 0) ? (wasmModuleInstance*)&parent : (wasmModuleInstance*)child[t - 1];
+        child[t] = (fxInstance*)from->newChild(from); evs[t] = (Ev*)calloc(MAXEV, sizeof(Ev)); }
     /* addresses: some collide in the 1024-bucket map (A, A+1024*4k), others do not; all 8-byte aligned */
     for (i = 0; i < naddr; i++) addrs[i] = 4096u + (unsigned)((i % 2) ? 1024u * 4u * (unsigned)i : 8u * (unsigned)i) + ((seed >> 3) % 4) * 2048u * 0u;
     /* depending on the seed some of the addresses lie in the second 64 KiB page (the memory has two), next to 2^16 and far into it */
